@@ -48,6 +48,8 @@ type ProcessSet struct {
 
 	mch  chan imessage
 	done chan struct{}
+
+	closeDone sync.Once
 }
 
 func NewProcessSet(executeProcesses, waitingProcesses []*schema.Process, definitions *schema.Definitions, opts ...Option) (*ProcessSet, error) {
@@ -120,7 +122,7 @@ func (ps *ProcessSet) StartAll(ctx context.Context) error {
 func (ps *ProcessSet) WaitUntilComplete(ctx context.Context) (complete bool) {
 	go func() {
 		ps.wg.Wait()
-		close(ps.done)
+		ps.closeDone.Do(func() { close(ps.done) })
 	}()
 	select {
 	case <-ctx.Done():
